@@ -121,6 +121,30 @@ def _calls():
         c.align_origin(a)
     add("align/align_origin (reference)", f_align)
 
+    def f_op_args(a, b, W):
+        """the non-trajectory arguments of the in-place operations: the
+        transformation matrix, the index container, the thresholds"""
+        T_sim = W(geom.sim_matrix(_Rx, [1.0, -2.0, 3.0], 2.0),
+                  "Sim(3) matrix given to transform()")
+        T_se = W(T_SE3.copy(), "SE(3) matrix given to transform()")
+        for T in (T_sim, T_se):
+            for kw in ({}, {"right_mul": True},
+                       {"right_mul": True, "propagate": True}):
+                c = copy.deepcopy(a)
+                c.transform(T, **kw)
+        n = a.num_poses
+        for ids in (W([0, n - 1], "index list given to reduce_to_ids()"),
+                    W(np.array([0, -2, -1]), "index array (with negative "
+                      "indices) given to reduce_to_ids()"),
+                    W([-n, -1], "index list (negative) given to "
+                      "reduce_to_ids()")):
+            c = copy.deepcopy(a)
+            c.reduce_to_ids(ids)
+        c = copy.deepcopy(a)
+        c.scale(W(np.float64(2.0), "scale factor"))
+        c.downsample(W(3, "number of poses"))
+    add("arguments of transform/reduce_to_ids/scale", f_op_args)
+
     def f_assoc(a, b, W):
         twin = copy.deepcopy(a)
         W(twin, "trajectory with the same timestamps")
